@@ -1602,7 +1602,9 @@ def _t_eval(target, _t, scope):
             # handle the rest of the t_path in recursive calls
             cur = []
             todo = TType()
-            todo.__ops__ = (root,) + t_path[i+2:]
+            # (the steps after the wildcard apply to each child, whatever
+            # root the steps before it started from)
+            todo.__ops__ = (T,) + t_path[i+2:]
             for child in nxt:
                 try:
                     cur.append(_t_eval(child, todo, scope))
